@@ -177,6 +177,83 @@ theorem NT.delete_some_nodeIds (t : NT) (k : Key) (e : Entry) (j : Id) (t' : NT)
           simp only [List.count_cons, List.count_append, List.count_nil] at this ⊢
           omega
 
+theorem NT.entries_insertAt (t : NT) (n : Nat) (e : Entry) (id : Id) :
+    (t.insertAt n e id).entries.Perm (e :: t.entries) := by
+  induction t with
+  | leaf x =>
+    simp only [NT.insertAt]
+    split
+    · simp only [NT.entries]; exact List.perm_append_comm (l₁ := [x]) (l₂ := [e])
+    · simp [NT.entries]
+  | node i b l r ihl ihr =>
+    simp only [NT.insertAt]
+    by_cases h1 : b < n
+    · simp only [h1, ↓reduceIte]
+      by_cases h2 : getBit e.key b = true
+      · simp only [h2, ↓reduceIte, NT.entries]
+        exact (List.Perm.append_left _ ihr).trans (List.perm_middle)
+      · simp only [h2, Bool.false_eq_true, ↓reduceIte, NT.entries]
+        exact List.Perm.append_right _ ihl
+    · simp only [h1, ↓reduceIte]
+      split
+      · simp only [NT.entries]
+        exact (List.perm_append_comm (l₁ := l.entries ++ r.entries) (l₂ := [e]))
+      · simp [NT.entries]
+
+/-- the deleted entry leaves the walk, everything else stays -/
+theorem NT.delete_entries (t : NT) (k : Key) (e : Entry) (q : Option (Id × NT))
+    (h : t.delete k = some (e, q)) :
+    t.entries.Perm (e :: (match q with | none => [] | some p => p.2.entries)) := by
+  induction t generalizing e q with
+  | leaf x =>
+    simp only [NT.delete] at h
+    split at h
+    · cases h; simp [NT.entries]
+    · cases h
+  | node i b l r ihl ihr =>
+    simp only [NT.delete] at h
+    by_cases hb : getBit k b = true
+    · simp only [hb, ↓reduceIte] at h
+      cases hr : r.delete k with
+      | none => simp [hr] at h
+      | some p =>
+        obtain ⟨e', q'⟩ := p
+        have := ihr e' q' hr
+        cases q' with
+        | none =>
+          simp only [hr, Option.some.injEq, Prod.mk.injEq] at h
+          obtain ⟨he, hq⟩ := h
+          subst he; subst hq
+          simp only [NT.entries]
+          exact (List.Perm.append_left _ this).trans (by simp)
+        | some jr =>
+          obtain ⟨j', r'⟩ := jr
+          simp only [hr, Option.some.injEq, Prod.mk.injEq] at h
+          obtain ⟨he, hq⟩ := h
+          subst he; subst hq
+          simp only [NT.entries]
+          exact (List.Perm.append_left _ this).trans List.perm_middle
+    · simp only [hb, Bool.false_eq_true, ↓reduceIte] at h
+      cases hl : l.delete k with
+      | none => simp [hl] at h
+      | some p =>
+        obtain ⟨e', q'⟩ := p
+        have := ihl e' q' hl
+        cases q' with
+        | none =>
+          simp only [hl, Option.some.injEq, Prod.mk.injEq] at h
+          obtain ⟨he, hq⟩ := h
+          subst he; subst hq
+          simp only [NT.entries]
+          simpa using List.Perm.append_right r.entries this
+        | some jl =>
+          obtain ⟨j', l'⟩ := jl
+          simp only [hl, Option.some.injEq, Prod.mk.injEq] at h
+          obtain ⟨he, hq⟩ := h
+          subst he; subst hq
+          simp only [NT.entries]
+          simpa using List.Perm.append_right r.entries this
+
 /-! ## `struct CBTree` -/
 
 theorem CB.eroot_entries (t : CB) : walk t.eroot = t.entries := by
@@ -243,7 +320,44 @@ theorem cbInsertA_true {t t' : CB} {e : Entry} {s s' : AS}
           simp only [CB.owned, CB.nodeIds, hr, List.count_cons, List.count_append] at this pc ⊢
           omega
 
-/-- when the C06 C06.insert refuses the key, no request is made at all -/
+theorem cbInsertA_entries {t t' : CB} {e : Entry} {s s' : AS}
+    (h : cbInsertA t e s = ((true, t'), s')) : t'.entries.Perm (e :: t.entries) := by
+  unfold cbInsertA at h
+  split at h
+  · next hr => cases h; simp [CB.entries, hr, NT.entries]
+  · next r hr =>
+    split at h
+    · cases h
+    · split at h
+      · cases h
+      · next id s1 e1 =>
+        cases h
+        simpa [CB.entries, hr] using NT.entries_insertAt r _ e id
+
+theorem cbDeleteA_entries {t t' : CB} {k : Key} {e : Entry} {s s' : AS}
+    (h : cbDeleteA t k s = ((some e, t'), s')) : t.entries.Perm (e :: t'.entries) := by
+  unfold cbDeleteA at h
+  cases hr : t.root with
+  | none => simp [hr] at h
+  | some rt =>
+    simp only [hr] at h
+    cases hd : rt.delete k with
+    | none => simp [hd] at h
+    | some p =>
+      obtain ⟨e', q⟩ := p
+      have := NT.delete_entries rt k e' q hd
+      cases q with
+      | none =>
+        simp only [hd] at h
+        cases h
+        simpa [CB.entries, hr] using this
+      | some jr =>
+        obtain ⟨j, r'⟩ := jr
+        simp only [hd] at h
+        cases h
+        simpa [CB.entries, hr] using this
+
+/-- when the C06 insert refuses the key, no request is made at all -/
 theorem cbInsertA_refused {t : CB} {e : Entry} (s : AS) (h : C06.insert t.eroot e = none) :
     cbInsertA t e s = ((false, t), s) := by
   unfold cbInsertA
